@@ -1404,12 +1404,12 @@ MUTANTS += [
     ("C19", _PSP, r"x_n = self\.evaluate_cdf\(dict_sample\)", "x_n = self.evaluate_cdf(dict_sample, inverse=True)"),
     ("C19", _PSP, r"missing_names = \[name for name in data_names if name not in x_n\]", "missing_names = [name for name in data_names if name in x_n]"),
     ("C19", _PSP, r"x_n\[name\] = x_n_geom\[name\]", "x_n[name] = dict_sample[name]"),
-    ("C19", _PSP, r"x_u_geom = super\(\)\.unnormalize_vect\(x_vect, no_check=no_check\)", "x_u_geom = super().normalize_vect(x_vect)"),
+    ("C19", _PSP, r"x_u_geom = super\(\)\.unnormalize_vect\(\n            x_vect, minus_lb=minus_lb, no_check=no_check\n        \)", "x_u_geom = super().normalize_vect(x_vect, minus_lb=minus_lb)"),
     ("C19", _PSP, r"return concatenate_dict_of_arrays_to_array\(x_u, data_names\)", "return concatenate_dict_of_arrays_to_array(x_u_geom, data_names)"),
     ("C19", _PSP, r"split_array_to_dict_of_arrays\(x_vect, data_sizes, data_names\), inverse=True", "split_array_to_dict_of_arrays(x_u_geom, data_sizes, data_names), inverse=True"),
     ("C19", _PSP, r"return self\.normalize_vect\(vector, use_dist=True, out=out\)", "return self.normalize_vect(vector, use_dist=False, out=out)"),
     ("C19", _PSP, r"return self\.unnormalize_vect\(vector, use_dist=True, no_check=no_check, out=out\)", "return self.unnormalize_vect(vector, use_dist=False, no_check=no_check, out=out)"),
-    ("C19", _PSP, r"        if not use_dist:\n            return super\(\)\.normalize_vect\(x_vect, out=out\)", "        if use_dist:\n            return super().normalize_vect(x_vect, out=out)"),
+    ("C19", _PSP, r"        if not use_dist:\n            return super\(\)\.normalize_vect\(x_vect, minus_lb=minus_lb, out=out\)", "        if use_dist:\n            return super().normalize_vect(x_vect, minus_lb=minus_lb, out=out)"),
     ("C19", _PSP, r"            del self\.distributions\[name\]\n", "            pass\n"),
     ("C19", _PSP, r"self\.uncertain_variables\.remove\(name\)", "self.uncertain_variables.pop()"),
     ("C19", _PSP, r"        super\(\)\.remove_variable\(name\)\n", "        pass\n"),
@@ -1451,7 +1451,9 @@ MUTANTS += [
      '        h5file = h5py.File(file_path, "a" if append else "w")\n        if True:\n            if hdf_node_path:\n                h5file = h5file.require_group(hdf_node_path)\n            design_vars_grp = h5file.require_group("x")'),
     # no full-export fall-back when the node is empty (first backup export)
     ("C11", "algos/_hdf_database.py", r"if append and len\(design_vars_grp\) != 0:", "if append:"),
-    ("C11", _BS, r"        self\.save_optimization_history\(self\._opt_hist_backup_path, append=True\)", "        self.save_optimization_history(self._opt_hist_backup_path, file_format=self.formulation.optimization_problem.HistoryFileFormat.GGOBI, append=True)"),
+    ("C11", _BS, r"        self\.save_optimization_history\(self\._opt_hist_backup_path, append=True\)", "        pass"),
+    # the final export of execute is guarded by the wrong comparison (never fires when points were added)
+    ("C11", _BS, r"            if 0 < n_x < n_x_a:", "            if 0 < n_x_a < n_x:"),
     # listener protocol
     ("C03", "algos/database.py", r"        self\.__hdf_database\.add_pending_array\(hashed_input_value\)\n", ""),
     ("C03", "algos/database.py", r"        stored_outputs = self\.get\(hashed_input_value\)\n", "        if self.__store_listeners:\n            self.notify_store_listeners(x_vect)\n        stored_outputs = self.get(hashed_input_value)\n"),
@@ -1485,4 +1487,44 @@ MUTANTS += [
     ("C17", "algos/design_space.py", r"        for name in self\.variable_names:\n            if name not in keep_variables:", "        for name in self.variable_names[1:]:\n            if name not in keep_variables:"),
     ("C17", "algos/design_space.py", r"        for name in keep_variables:\n            self\.__check_known_variable\(name\)\n", ""),
     ("C17", "algos/design_space.py", r"            self\.__check_known_variable\(name\)\n        return design_space", "            self.__check_known_variable(name)\n        return None"),
+]
+
+# ---- C19: reverts of the repair bc82ce9 (minus_lb forwarded to the design-space maps)
+MUTANTS += [
+    ("C19", _PSP, r"return super\(\)\.normalize_vect\(x_vect, minus_lb=minus_lb, out=out\)", "return super().normalize_vect(x_vect, out=out)"),
+    ("C19", _PSP, r"x_n_geom = super\(\)\.normalize_vect\(x_vect, minus_lb=minus_lb\)", "x_n_geom = super().normalize_vect(x_vect)"),
+    ("C19", _PSP, r"x_vect, minus_lb=minus_lb, no_check=no_check, out=out\n", "x_vect, no_check=no_check, out=out\n"),
+    ("C19", _PSP, r"x_vect, minus_lb=minus_lb, no_check=no_check\n", "x_vect, no_check=no_check\n"),
+    ("C19", _PSP, r"return self\.__normalize_vect\(x_vect, minus_lb\)", "return self.__normalize_vect(x_vect, True)"),
+    ("C19", _PSP, r"return self\.__unnormalize_vect\(x_vect, minus_lb, no_check\)", "return self.__unnormalize_vect(x_vect, True, no_check)"),
+]
+
+MUTANTS += [
+    # ---- C17 (c17_build): BaseFormulation._remove_sub_scenario_dv_from_ds
+    ("C17", "formulations/base_formulation.py", r"                if var in self\.optimization_problem\.design_space:", "                if var not in self.optimization_problem.design_space:"),
+    ("C17", "formulations/base_formulation.py", r"                    self\.optimization_problem\.design_space\.remove_variable\(var\)", "                    pass"),
+    ("C17", "formulations/base_formulation.py", r"        for scenario in self\.get_sub_scenarios\(\):\n            for var", "        for scenario in self.get_sub_scenarios()[1:]:\n            for var"),
+    ("C17", "formulations/base_formulation.py", r"                    self\.optimization_problem\.design_space\.remove_variable\(var\)", "                    self.optimization_problem.design_space.remove_variable(var)\n                    break"),
+]
+MUTANTS += [
+    # the backup listener is registered BEFORE the backup file is loaded (it would be notified of the points being loaded)
+    ("C03", _BS, r"        if self\._opt_hist_backup_path\.exists\(\):\n",
+     "        opt_pb.add_listener(self._execute_backup_callback, at_each_iteration=at_each_iteration, at_each_function_call=at_each_function_call)\n        if self._opt_hist_backup_path.exists():\n"),
+]
+
+# ---- C19 (round 2): registration of random vectors / variables, joint distribution rebuilt on removal, samples
+MUTANTS += [
+    ("C19", _PSP, r"        u_b = self\.distributions\[name\]\.math_upper_bound", "        u_b = self.distributions[name].num_upper_bound"),
+    ("C19", _PSP, r"        value = self\.distributions\[name\]\.mean", "        value = self.distributions[name].standard_deviation"),
+    ("C19", _PSP, r"        self\.uncertain_variables\.append\(name\)\n\n        # Update the full joint distribution,\n        # i\.e\. the joint distribution of all the uncertain variables\.\n        self\.build_joint_distribution\(\)",
+     "        self.build_joint_distribution()\n        self.uncertain_variables.append(name)"),
+    ("C19", _PSP, r"            l_b,\n            u_b,\n            value,", "            u_b,\n            l_b,\n            value,"),
+    ("C19", _PSP, r"            self\.distributions\[name\]\.dimension,\n            self\.DesignVariableType\.FLOAT,", "            1,\n            self.DesignVariableType.FLOAT,"),
+    ("C19", _PSP, r"            self\.__distribution_family_id = distribution_family_id", "            pass"),
+    ("C19", _PSP, r"        self\.distributions\[name\] = joint_distribution_class\(marginals\)", "        self.distributions[name] = joint_distribution_class(marginals[:1])"),
+    ("C19", _PSP, r"            name,\n            distribution,\n            size,\n            \*\*kwargs,", "            name,\n            distribution,\n            1,\n            **kwargs,"),
+    ("C19", _PSP, r"            name,\n            distribution,\n            size,\n            \*\*kwargs,", "            name,\n            name,\n            size,\n            **kwargs,"),
+    ("C19", _PSP, r"            if self\.uncertain_variables:\n                self\.build_joint_distribution\(\)\n        super\(\)\.remove_variable\(name\)", "        super().remove_variable(name)"),
+    ("C19", _PSP, r"data_array, self\.variable_sizes, self\.uncertain_variables", "data_array, self.variable_sizes, list(self._variables)"),
+    ("C19", _PSP, r"sample = self\.distribution\.compute_samples\(n_samples\)", "sample = self.distribution.compute_samples(n_samples + 1)"),
 ]
